@@ -481,10 +481,24 @@ def splice_async(caller, call_block, outer, cor):
     return True
 
 
+class _Bodies(dict):
+    """the bodies of the inlined fact set: closures of a removed helper are not listed (iteration, `in`), but a lookup by their path -
+    which is how the spliced code in the callers names them - still finds them"""
+    detached = None
+
+    def __missing__(self, k):
+        return self.detached[k]
+
+    def get(self, k, default=None):
+        if dict.__contains__(self, k):
+            return dict.__getitem__(self, k)
+        return (self.detached or {}).get(k, default)
+
+
 def inline_all(facts):
     """a copy of `facts` with helper calls spliced into their callers; returns (new facts, {helper path: number of splices})"""
     new = copy.copy(facts)
-    new.bodies = dict(facts.bodies)
+    new.bodies = _Bodies(facts.bodies)
     new._callers = None
     counts = {}
     remaining_calls = {}
@@ -530,6 +544,7 @@ def inline_all(facts):
     # a helper all of whose call sites were inlined is dead code for the who-may-call rules
     detached = dict(getattr(facts, "detached", {}) or {})
     new.detached = detached
+    new.bodies.detached = detached
     still_called = set()
     for path, b in new.bodies.items():
         for blk in b.j["blocks"]:
